@@ -60,6 +60,49 @@ def random_offset(rng, mag):
     return [rng.choice([-1, 1]) * rng.uniform(0.3, 1.0) * mag for _ in range(3)]
 
 
+def distinct_f32(pts):
+    """the tree stores float32 coordinates and positions identify nodes: the points must stay pairwise distinct there"""
+    return len({tuple(float(np.float32(c)) for c in p) for p in pts}) == len(pts)
+
+
+def clustered_cloud(rng, dtype):
+    """a cloud that is not uniform: a few compact groups (boutons, spine heads, somata of a culture …) of unequal size and density, spread over a
+    region much wider than a group, plus some stray points anywhere in the region; the first point (root / soma) is either a random member or a
+    point between the groups. Point spacing varies by orders of magnitude inside one cloud, so the short edges and the few long bridges of the
+    spanning tree are both present. None if two points coincide as float32"""
+    span = 10 ** rng.uniform(1.5, 2.7)
+    pts = []
+    for _ in range(rng.randint(2, 5)):
+        c = [rng.uniform(-span / 2, span / 2) for _ in range(3)]
+        s = span * rng.uniform(0.005, 0.05)
+        pts += [[c[i] + rng.gauss(0, s) for i in range(3)] for _ in range(rng.randint(6, 70))]
+    pts += [[rng.uniform(-span / 2, span / 2) for _ in range(3)] for _ in range(rng.randint(0, 10))]
+    rng.shuffle(pts)
+    pts = pts[:300]
+    if rng.random() < 0.5:
+        m = [sum(p[i] for p in pts) / len(pts) for i in range(3)]
+        pts.insert(0, [m[i] + rng.uniform(-1, 1) * span * 0.02 for i in range(3)])
+    pts = [[float(np.dtype(dtype).type(c)) for c in p] for p in pts]
+    return pts if distinct_f32(pts) else None
+
+
+def near_pair_cloud(rng, n, mag, dtype, with_root):
+    """a cloud in general position in which two points nearly coincide: one point is moved next to another, in every axis a few (2 … 2000,
+    log-uniform) float32 resolution steps of the coordinate away — distinct inputs, also as the float32 the tree stores, but equal under any
+    tolerance based comparison. `with_root`: the pair is the first point (root / soma) and a later one, else two later points.
+    Returns (points, steps) or None"""
+    pts = placed_cloud(rng, n, rng.uniform(10, 100), random_offset(rng, mag * 10 ** rng.uniform(-0.5, 0.5)), 1.0, dtype)
+    if pts is None:
+        return None
+    a = 0 if with_root else rng.randrange(1, n)
+    b = rng.choice([i for i in range(1, n) if i != a])
+    steps = 2 * 10 ** rng.uniform(0, 3)
+    for i in range(3):
+        u = float(np.spacing(np.float32(abs(pts[b][i])))) if pts[b][i] != 0 else 1e-6
+        pts[a][i] = float(np.dtype(dtype).type(pts[b][i] + rng.choice([-1, 1]) * max(2, round(steps * rng.uniform(0.5, 1.0))) * u))
+    return (pts, steps) if distinct_f32(pts) else None
+
+
 def reference(points, bf, k, exclude_root, tol=1e-9):
     """the stated greedy rule, re-simulated independently: attach the unconnected point j to the connected,
     unsaturated point i minimising |ij| + bf * pathlen(i); returns (pids, ambiguous). Ambiguous = best and second-best
@@ -204,6 +247,30 @@ class MstSuite(Suite):
                 if pts is None:
                     continue
                 out.append({"class": f"unit-large/1e{lo}..1e{hi}", "points": pts, "dtype": "float64", **options(True), "large": True})
+        # clustered clouds (compact groups of unequal size + stray points, tens to hundreds of points): three of four with the MST clause
+        # (no balancing factor, no limit, through both classes, soma given or not), the others with any options
+        for i in range(36 if not big else 100):
+            dt = "float32" if i % 6 == 5 else "float64"
+            pts = clustered_cloud(rng, dt)
+            if pts is None:
+                continue
+            o = options(i % 4 != 3)
+            out.append({"class": f"clustered/{dt}/n{'<=40' if len(pts) <= 40 else '<=120' if len(pts) <= 120 else '>120'}/bf{o['bf']}/k{o['k']}/soma{int(o['soma'])}",
+                        "points": pts, "dtype": dt, **o, **({"large": True} if len(pts) > 40 else {})})
+        # two nearly coincident input points, at the origin and translated by 1e1 … 1e5 units: the soma and a cloud point (soma given), or two
+        # cloud points; every input point still has to appear exactly once
+        for i, mag in enumerate((0.0, 1e1, 1e2, 1e3, 1e4, 1e5) * (3 if not big else 8)):
+            dt = rng.choice(["float64", "float64", "float32"])
+            with_root = i % 3 != 2
+            made = near_pair_cloud(rng, rng.choice([5, 8, 12, 20, 30]), mag, dt, with_root)
+            if made is None:
+                continue
+            pts, steps = made
+            o = options(rng.random() < 0.4)
+            if with_root:
+                o["soma"] = True
+            out.append({"class": f"near-pair/{'soma~point' if with_root else 'point~point'}/{dt}/off{mag:g}/steps{'<=20' if steps <= 20 else '<=200' if steps <= 200 else '>200'}",
+                        "points": pts, "dtype": dt, **o})
         return out
 
     def run(self, case):
@@ -224,8 +291,25 @@ class MstSuite(Suite):
         return {"pid": t.pid().tolist(), "id": t.id().tolist(), "xyz": t.xyz().astype(float).tolist(), "type": t.type().tolist(),
                 "length": float(t.length())}
 
+    @staticmethod
+    def _malformed(case, res):
+        """None if the result has the shape of a tree over len(points) nodes, else (key, message)"""
+        n = len(case["points"])
+        if not isinstance(res, dict) or any(not isinstance(res.get(f), list) for f in ("pid", "id", "xyz")):
+            return ("mst-malformed-output", f"no node table in the result: {str(res)[:200]}")
+        if len(res["xyz"]) != n or len(res["pid"]) != n or len(res["id"]) != n:
+            return ("mst-node-count", f"the tree has {len(res['xyz'])} nodes ({len(res['id'])} ids, {len(res['pid'])} parents) for {n} input points"
+                                      f"{' (soma + ' + str(n - 1) + ' cloud points)' if case.get('soma') else ''}: every input point exactly once")
+        if any(not isinstance(p, int) or isinstance(p, bool) or not -1 <= p < n for p in res["pid"]):
+            return ("mst-malformed-output", f"parent entries outside -1 … {n - 1}: {str(res['pid'])[:200]}")
+        if any(not isinstance(q, (list, tuple)) or len(q) != 3 or any(not isinstance(c, (int, float)) for c in q) for q in res["xyz"]):
+            return ("mst-malformed-output", f"positions are not triples of numbers: {str(res['xyz'])[:200]}")
+        return None
+
     def _orig_pids(self, case, res):
         """parents in the numbering of the input cloud (positions identify nodes)"""
+        if self._malformed(case, res) is not None:
+            return None, []
         pos = {tuple(float(np.float32(c)) for c in p): i for i, p in enumerate(case["points"])}
         old = [pos.get(tuple(p)) for p in res["xyz"]]
         if None in old or len(set(old)) != len(old):
@@ -236,7 +320,7 @@ class MstSuite(Suite):
         return pid, old
 
     def lines(self, case, res):
-        if "exc" in res:
+        if not isinstance(res, dict) or "exc" in res:
             return []
         if case.get("large"):
             return []      # the oracle's clauses only: the quadratic reference and the rational model are for the smaller clouds
@@ -253,10 +337,19 @@ class MstSuite(Suite):
         return [(f"mst {args}", gen.ints(pid)), (f"gmst {args}", gen.ints(pid))]
 
     def oracle(self, case, res):
+        try:
+            return self._oracle(case, res)
+        except Exception as e:  # noqa: BLE001 - an output the clauses cannot even be evaluated on is a finding, never a crash of the check
+            return [("mst-malformed-output", f"the clauses cannot be evaluated on the result ({type(e).__name__}: {str(e)[:200]})")]
+
+    def _oracle(self, case, res):
         pts = case["points"]
         n = len(pts)
-        if "exc" in res:
+        if isinstance(res, dict) and "exc" in res:
             return [("mst-raises", f"{res['exc']}: {res.get('msg')}")]
+        bad = self._malformed(case, res)
+        if bad is not None:
+            return [bad]
         out = []
         pid, old = self._orig_pids(case, res)
         if pid is None:
